@@ -122,7 +122,7 @@ theorem AccountMatches_agrees (o : Option (List (String → Bool))) :
 
 /-- the `ext` parameters are the flag accessors, in this order (the two `extra` parameters are `reg.SwapType` of `account.Remap`
 and `reg.MustGetPath` of `account.Shorten`) -/
-example : commands.balanceRunner.execute.query.externals =
+theorem query_externals_pinned : commands.balanceRunner.execute.query.externals =
     ["ext1 = r.remap.Regex()", "ext3 = r.mapping.Value()", "ext5 = r.accounts.Regex() [none = nil]", "ext6 = r.commodities.Regex()"] := rfl
 
 /-- **the `journal.Query` of `knut balance`**, as `execute` builds it
@@ -312,35 +312,35 @@ change of any of these texts in /repo fails the `example`. -/
 with the variables the model gives them: ONE `valuation` for ComputePrices, Valuate and the query (`cfg.valuation`), ONE
 `partition` for Filter, CloseAccounts and the query's `Align` (`cfg.span`, `cfg.periods`), `r.close` (`cfg.close`), the journal
 builder `j` for the closing days, and the report the query inserts into -/
-example : Knut.Generated.balanceProcessorCalls =
+theorem processors_pinned : Knut.Generated.balanceProcessorCalls =
     [("check.Check", []), ("journal.ComputePrices", ["valuation"]), ("journal.Valuate", ["reg", "valuation"]),
      ("journal.Filter", ["partition"]), ("journal.CloseAccounts", ["j", "reg", "r.close", "partition"]),
      ("journal.Query.Into", ["report"])] := rfl
 
-example : Knut.Generated.balanceProcessorOrder = Knut.Generated.balanceProcessorCalls.map Prod.fst := rfl
+theorem processorOrder_pinned : Knut.Generated.balanceProcessorOrder = Knut.Generated.balanceProcessorCalls.map Prod.fst := rfl
 
 /-- how these variables are defined: the valuation from the flag, the journal from the path argument, the partition =
 `Multiperiod.Partition` of the journal's period (`BalanceCmd.window` clipped by `newPartition`), the report over the SAME
 partition, the processors run by `j.Build().Process(procs...)` (`Balance.run cfg b.build`), then the renderer -/
-example : Knut.Generated.balanceSetup =
+theorem setup_pinned : Knut.Generated.balanceSetup =
     [("reg", "registry.New()"), ("valuation, err", "r.valuation.Value(reg)"),
      ("j, err", "journal.FromPath(cmd.Context(), reg, args[0])"), ("partition", "r.Multiperiod.Partition(j.Period())"),
      ("report", "balance.NewReport(reg, partition)"), ("procs", "<the processors>"), ("err", "j.Build().Process(procs...)"),
      ("reportRenderer", "balance.Renderer{…}"), ("out", "bufio.NewWriter(cmd.OutOrStdout())")] := rfl
 
 /-- `BalanceCmd.renderCfg`: valuation, `--show-commodities`, `--sort`, `--diff` -/
-example : Knut.Generated.balanceRendererFields =
+theorem rendererFields_pinned : Knut.Generated.balanceRendererFields =
     [("Valuation", "valuation"), ("CommodityDetails", "r.showCommodities.Regex()"),
      ("SortAlphabetically", "r.sortAlphabetically"), ("Diff", "r.diff")] := rfl
 
 /-- `BalanceCmd.run`: `--csv` chooses the CSV renderer (no options), else the text renderer with `--thousands` and `--digits` -/
-example : Knut.Generated.balanceRendererChoice = ["tableRenderer", "r.csv", "table.CSVRenderer", "table.TextRenderer"] ∧
+theorem rendererChoice_pinned : Knut.Generated.balanceRendererChoice = ["tableRenderer", "r.csv", "table.CSVRenderer", "table.TextRenderer"] ∧
     Knut.Generated.balanceCSVRendererFields = [] ∧
     Knut.Generated.balanceTextRendererFields = [("Color", "r.color"), ("Thousands", "r.thousands"), ("Round", "r.digits")] ∧
     Knut.Generated.balanceLastStatement = "return tableRenderer.Render(reportRenderer.Render(report), out)" := ⟨rfl, rfl, rfl, rfl⟩
 
 /-- the flags: name, the field of `balanceRunner` it sets, its default -/
-example : Knut.Generated.balanceFlags =
+theorem flags_pinned : Knut.Generated.balanceFlags =
     [("r.Multiperiod.Setup(c)", "", ""), ("cpuprofile", "r.cpuprofile", "\"\""), ("diff", "r.diff", "false"), ("csv", "r.csv", "false"),
      ("close", "r.close", "true"), ("sort", "r.sortAlphabetically", "false"), ("show-commodities", "r.showCommodities", "-"),
      ("val", "r.valuation", "-"), ("map", "r.mapping", "-"), ("remap", "r.remap", "-"), ("account", "r.accounts", "-"),
@@ -348,7 +348,7 @@ example : Knut.Generated.balanceFlags =
      ("color", "r.color", "true")] := rfl
 
 /-- the same defaults in the model's `BalanceFlags` -/
-example : (({ to := 0 } : BalanceFlags).diff, ({ to := 0 } : BalanceFlags).csv, ({ to := 0 } : BalanceFlags).close,
+theorem flagDefaults_model : (({ to := 0 } : BalanceFlags).diff, ({ to := 0 } : BalanceFlags).csv, ({ to := 0 } : BalanceFlags).close,
     ({ to := 0 } : BalanceFlags).sortAlpha, ({ to := 0 } : BalanceFlags).digits, ({ to := 0 } : BalanceFlags).thousands) =
     (false, false, true, false, 0, false) := rfl
 
